@@ -79,6 +79,30 @@ func main() {
 		os.Exit(cmdReplay(os.Args[2:]))
 	case "selftest":
 		os.Exit(cmdSelftest(os.Args[2:]))
+	case "build":
+		// development aid: simd build <variant> <out>: one worker binary
+		if len(os.Args) < 4 {
+			fmt.Fprintln(os.Stderr, "usage: simd build <variant> <out>")
+			os.Exit(2)
+		}
+		b, err := newBuilder(repoDir, filepath.Join(verifDir, "sim"))
+		if err != nil {
+			fmt.Fprintln(os.Stderr, err)
+			os.Exit(2)
+		}
+		defer b.cleanup()
+		v, err := b.build(os.Args[2])
+		if err != nil {
+			fmt.Fprintln(os.Stderr, err)
+			os.Exit(2)
+		}
+		data, _ := os.ReadFile(v.Bin)
+		if err := os.WriteFile(os.Args[3], data, 0o755); err != nil {
+			fmt.Fprintln(os.Stderr, err)
+			os.Exit(2)
+		}
+		b.cleanup()
+		return
 	default:
 		fmt.Fprintln(os.Stderr, "unknown command", os.Args[1])
 		os.Exit(2)
